@@ -883,3 +883,122 @@ FUNCTIONS += [
         stmt_rules=[(r'^CO_YIELD\((\w+)\)$', r'acts := acts ++ [CoAct.yield \1]'), (r'^CO_RETURN\(\)$', 'acts := acts ++ [CoAct.ret]')],
     ),
 ]
+
+# ----------------------------------------------------------------------------------------------
+# parameter matching and the parameter listings of reports (C01, C15): pack expansions over the positions 0 … N-1.
+# `f(std::get<I>(t), std::get<I>(u))...` inside an initializer list is evaluated for I = 0, 1, …, N-1 in that order; the
+# vocabulary reads it as a loop over the positions (`pairs`: position, matcher, argument).
+
+GET_I = (r'std::get<I>\((\w+)\)', r'GET_I(\1)')
+PACK_BOOL = (r'::trompeloeil::ignore\(std::initializer_list<bool>\{(.*?)\.\.\.\}\);', r'for (auto& pr : pairs) { \1; }')
+PACK_INT = (r'::trompeloeil::ignore\(std::initializer_list<int>\{\((.*?),0\)\.\.\.\}\);', r'for (auto& pr : pairs) { \1; }')
+
+FUNCTIONS += [
+    dict(
+        name='match_parameters', cxx='trompeloeil::match_parameters(index_sequence<I...>, t, u)', file=MOCK, module='MatchParameters',
+        header=r'\n\s*match_parameters\(\s*detail::index_sequence<I\.\.\.>,\s*T const& t,\s*U const& u\)\s*noexcept\(noexcept\(std::initializer_list<bool>\{[^}]*\}\)\)',
+        pre=[PACK_BOOL, GET_I],
+        lean_sig='{π : Type} (param_matches : π → Bool) (pairs : List π) : Bool',
+        vars={'pairs': 'pairs'}, local_types={'all_true': 'Bool'},
+        stmt_ignore=[r'^::trompeloeil::ignore\(t, u\)$'],
+        expr_rules=[(r'^::trompeloeil::param_matches\(GET_I\(t\), GET_I\(u\)\)$', 'param_matches pr')],
+    ),
+    dict(
+        name='print_mismatch_one', cxx='trompeloeil::print_mismatch(os, num, v, p)', file=MOCK, module='PrintMismatchOne',
+        header=r'void print_mismatch\(\s*std::ostream& os,\s*size_t num,\s*V const& v,\s*P const& p\)',
+        lean_sig='(matches_ : Bool) (num : Nat) (os0 : List PTok) : List PTok',
+        prologue=['let mut os := os0'], epilogue='return os',
+        expr_rules=[(r'^::trompeloeil::param_matches\(v, p\)$', 'matches_')],
+        decl_rules=[(r'^auto prefix = param_name_prefix\(&v\) \+ "_"$', '')],
+        stmt_rules=[(r'^os << "  Expected " << std::setw\(\(num < 9\) \? 2 : 1\) << prefix << num \+ 1$', 'os := os ++ [PTok.expected num]'),
+                    (r'^::trompeloeil::print_expectation\(os, v\)$', 'pure ()')],
+    ),
+    dict(
+        name='print_mismatch_all', cxx='trompeloeil::print_mismatch(os, index_sequence<I...>, v, p)', file=MOCK, module='PrintMismatchAll',
+        imports=['PrintMismatchOne'],
+        header=r'void print_mismatch\(\s*std::ostream& os,\s*detail::index_sequence<I\.\.\.>,\s*std::tuple<V\.\.\.> const& v,\s*std::tuple<P\.\.\.> const& p\)',
+        pre=[PACK_INT, GET_I],
+        lean_sig='(pairs : List (Nat × Bool)) : List PTok',
+        prologue=['let mut os : List PTok := []'], epilogue='return os',
+        vars={'pairs': 'pairs'},
+        stmt_ignore=[r'^::trompeloeil::ignore\(os, v, p\)$'],
+        stmt_rules=[(r'^print_mismatch\(os, I, GET_I\(v\), GET_I\(p\)\)$', 'os := print_mismatch_one pr.2 pr.1 os')],
+    ),
+    dict(
+        name='missed_value', cxx='trompeloeil::missed_value', file=MOCK, module='MissedValue',
+        header=r'void missed_value\(\s*std::ostream& os,\s*int i,\s*T const& t\)',
+        lean_sig='(i : Nat) (os0 : List PTok) : List PTok',
+        prologue=['let mut os := os0'], epilogue='return os',
+        decl_rules=[(r'^auto prefix = param_name_prefix\(&t\) \+ "_"$', '')],
+        stmt_rules=[(r'^os << "  param " << std::setw\(\(i < 9\) \? 2 : 1\) << prefix << i \+ 1 << ::trompeloeil::param_compare_operator\(&t\)$',
+                     'os := os ++ [PTok.param i]'),
+                    (r'^::trompeloeil::print\(os, t\)$', 'pure ()'), (r"^os << '\\n'$", 'pure ()')],
+    ),
+    dict(
+        name='stream_params', cxx='trompeloeil::stream_params(os, index_sequence<I...>, t)', file=MOCK, module='StreamParams',
+        imports=['MissedValue'],
+        header=r'void stream_params\(\s*std::ostream &os,\s*detail::index_sequence<I\.\.\.>,\s*std::tuple<T\.\.\.> const &t\)',
+        pre=[PACK_INT, GET_I],
+        lean_sig='(pairs : List Nat) : List PTok',
+        prologue=['let mut os : List PTok := []'], epilogue='return os',
+        vars={'pairs': 'pairs'},
+        stmt_ignore=[r'^::trompeloeil::ignore\(os, t\)$'],
+        stmt_rules=[(r'^missed_value\(os, I, GET_I\(t\)\)$', 'os := missed_value pr os')],
+    ),
+]
+
+# ----------------------------------------------------------------------------------------------
+# the trace record of one call (C17): class trace_agent
+
+TRACE_SINK = [(r'^os$', 'os')]
+
+FUNCTIONS += [
+    dict(
+        name='trace_agent_ctor', cxx='trace_agent::trace_agent', file=MOCK, module='TraceAgentCtor',
+        header=r'trace_agent\(\s*location loc_,\s*char const\* name_,\s*tracer\* t_\)\s*:\s*loc\{loc_\}\s*,\s*t\{t_\}',
+        lean_sig='(t : Bool) : List TTok',
+        prologue=['let mut os : List TTok := []'], epilogue='return os',
+        vars={'t': 't'},
+        stmt_rules=[(r'^os << name_ << " with\.\\n"$', 'os := os ++ [TTok.name]')],
+    ),
+    dict(
+        name='trace_agent_dtor', cxx='trace_agent::~trace_agent', file=MOCK, module='TraceAgentDtor',
+        header=r'~trace_agent\(\)',
+        lean_sig='(t : Bool) : Bool',
+        prologue=['let mut sent := false'], epilogue='return sent',
+        vars={'t': 't'},
+        stmt_rules=[(r'^t->trace\(loc\.file, loc\.line, os\.str\(\)\)$', 'sent := true')],
+    ),
+    dict(
+        name='trace_params', cxx='trace_agent::trace_params', file=MOCK, module='TraceParams',
+        header=r'\n\s*trace_params\(\s*std::tuple<T\.\.\.> const& params\)',
+        lean_sig='(t : Bool) (os0 : List TTok) : List TTok',
+        prologue=['let mut os := os0'], epilogue='return os',
+        vars={'t': 't'},
+        stmt_rules=[(r'^stream_params\(os, params\)$', 'os := os ++ [TTok.params]')],
+    ),
+    dict(
+        name='trace_return', cxx='trace_agent::trace_return', file=MOCK, module='TraceReturn',
+        header=r'\n\s*trace_return\(\s*T&& rv\)\s*->\s*T',
+        lean_sig='(t : Bool) (os0 : List TTok) : List TTok',
+        prologue=['let mut os := os0'], epilogue='return os',
+        vars={'t': 't'},
+        stmt_rules=[(r'^os << " -> "$', 'os := os ++ [TTok.result]'), (r'^print\(os, rv\)$', 'pure ()'), (r"^os << '\\n'$", 'pure ()')],
+        ret_rules=[(r'^FWD_RV$', 'os')],
+        pre=[(r'std::forward<T>\(rv\)', 'FWD_RV')],
+    ),
+    dict(
+        name='trace_exception', cxx='trace_agent::trace_exception', file=MOCK, module='TraceException',
+        header=r'\n\s*trace_exception\(\)',
+        # `try { throw; } catch (std::exception const& e) {A} catch (...) {B}`: re-throwing the exception in flight sorts it
+        # into "derived from std::exception" (A) and everything else (B)
+        pre=[(r'(?s)try\s*\{\s*throw;\s*\}\s*catch\s*\(std::exception const& e\)\s*(\{.*?\})\s*catch\s*\(\.\.\.\)\s*(\{.*?\})',
+              r'if (IS_STD_EXCEPTION) \1 else \2')],
+        lean_sig='(t isStd : Bool) (os0 : List TTok) : List TTok',
+        prologue=['let mut os := os0'], epilogue='return os',
+        vars={'t': 't'},
+        expr_rules=[(r'^IS_STD_EXCEPTION$', 'isStd')],
+        stmt_rules=[(r'^os << "threw exception: what\(\) = " << e\.what\(\) << \'\\n\'$', 'os := os ++ [TTok.stdException]'),
+                    (r'^os << "threw unknown exception\\n"$', 'os := os ++ [TTok.unknownException]')],
+    ),
+]
